@@ -88,6 +88,24 @@ func genC13(w *bufio.Writer, tier string, rng *rand.Rand) {
 			}
 		}
 	}
+	// 1b. small-integer streams read after every step: coincidences are the rule (a new value equal
+	// to the running mean leaves the sum of squared deviations bit-identical while the count grows,
+	// merged halves with equal means, zero variance, ...)
+	for h := 0; h < pick(tier, 400, 12000); h++ {
+		nacc := 1 + rng.Intn(2)
+		var ops []string
+		sc := math.Ldexp(1, rng.Intn(5)-2)
+		off := []float64{0, 0, 10, -7, 1e6}[rng.Intn(5)]
+		for o := 0; o < 3+rng.Intn(10); o++ {
+			i := rng.Intn(nacc)
+			if nacc > 1 && rng.Intn(5) == 0 {
+				ops = append(ops, comb(i, 1-i), read(i))
+				continue
+			}
+			ops = append(ops, add(i, off+float64(rng.Intn(5))*sc), read(i))
+		}
+		emit(nacc, ops)
+	}
 	// 2. random histories: trees of merges, self-combine, repeated combine, empties.
 	nh := pick(tier, 4000, 150000)
 	for h := 0; h < nh; h++ {
